@@ -46,7 +46,7 @@ func fieldStoreTo(g *Graph, field string) NodePred {
 			return false
 		}
 		st2 := derefStruct(fa.X.Type())
-		return st2 != nil && st2.Field(fa.Field).Name() == field
+		return st2 != nil && fieldLabel(fa.X.Type(), fa.Field) == field
 	}
 }
 
@@ -100,8 +100,8 @@ func runC10(c *Check) {
 		st := derefStruct(add.Params[0].Type())
 		for i := 0; i < st.NumFields(); i++ {
 			f := st.Field(i)
-			if f.Name() != "queue" && strings.HasPrefix(f.Type().String(), "[]") {
-				stateFields = append(stateFields, f.Name())
+			if l := fieldLabel(add.Params[0].Type(), i); l != "queue" && strings.HasPrefix(f.Type().String(), "[]") {
+				stateFields = append(stateFields, l)
 			}
 		}
 	}
@@ -501,7 +501,7 @@ func runC10(c *Check) {
 			if st == nil || !strings.HasSuffix(fa.X.Type().String(), "single.BatchQueue") {
 				return false
 			}
-			name := st.Field(fa.Field).Name()
+			name := fieldLabel(fa.X.Type(), fa.Field)
 			for _, sf := range stateFields {
 				if sf == name {
 					return true
@@ -515,8 +515,7 @@ func runC10(c *Check) {
 				continue
 			}
 			nAcc++
-			st := derefStruct(fa.X.Type())
-			inst := fnShort(fn) + " ⟂ " + st.Field(fa.Field).Name() + " under mu"
+			inst := fnShort(fn) + " ⟂ " + fieldLabel(fa.X.Type(), fa.Field) + " under mu"
 			if heldAt(g, n, "mu") {
 				c.OK("C10-R6", inst, fnName(fn), p.InstrPos(fa), "accessed with mu held", true)
 			} else {
